@@ -30,7 +30,8 @@ FUNCTIONS = ["CompositeFrontend." + m for m in ["_add", "_add_dependent_constrai
             ["the seven thin mixins of the SolverComposite stack (vf/contracts/layers.py: 31 obligations, shared with C11)"]
 TRUSTED = _rtc.RTC_TRUSTED + ["contract of the child solvers (vf/contracts/composite.py:TChild): exact satisfiability, combine / split / branch per C15, queries answered with a token; their own correctness is C11",
                               "children over disjoint variables are independent (true of constraints that mention only their own variables: the support assumption of the truth tables)"]
-ASSUMPTIONS = ["universe of three 1-bit variables; every partition of them into children; one constraint per child in the start state; 1-bit query expressions",
+ASSUMPTIONS = ["ASSUMED child contract that the real child does NOT satisfy: a child's .variables is exactly the set of variables of its constraints (the real ConstrainedFrontend.variables only grows: after simplify() a child can report variables none of its constraints mentions, and two children can overlap - the state in which fix f46b33e's defect showed; reached only by the bounded histories)",
+               "universe of three 1-bit variables; every partition of them into children; one constraint per child in the start state; 1-bit query expressions",
                "CompositeFrontend.merge is proved for three branches of one ancestor (each child shared or extended by one constraint, checked or not; merge conditions over any variables; constant-False conditions are the recorded unsat-flag finding); combine (inherited: re-adds every constraint through _add), unsat_core, timeout/max_memory setters: bounded part only",
                "ModelCacheMixin.update during _reabsorb_solver is a no-op in the stub (the children's caches are C11)",
                "per-method contracts compose to histories by induction (stated, not mechanised)"]
